@@ -109,7 +109,7 @@ def run_kani_jobs(res, jobs, note=None, fallback=None):
             log("  FAIL   %s %s (not replayed: a violation of this property is already reproduced)" % (key, descs))
             continue
         log("  FAIL   %s %s -> extracting counter-example" % (key, descs))
-        pb = kanirun.run_harness(r["cfg"], r["harness"], timeout=max(600, 2 * int(r.get("wall_s", 300))), playback=True)
+        pb = kanirun.run_harness(r["cfg"], r["harness"], timeout=max(1800, 6 * int(r.get("wall_s", 300))), mem_gb=40, playback=True)
         tests = [t for t in pb.get("playback", []) if t["kind"] != "cover"]
         reproduced = False
         recs = []
